@@ -68,16 +68,6 @@ func asValueReader[T any](x T) valueReader {
 	return any(&x).(valueReader)
 }
 
-// failingEnveloper is a reply whose body cannot be encoded.
-type failingEnveloper struct{}
-
-func (failingEnveloper) MethodName() string              { return "f" }
-func (failingEnveloper) EnvelopeType() wire.EnvelopeType { return wire.Reply }
-func (failingEnveloper) Encode(sw stream.Writer) error {
-	sw.WriteStructBegin()
-	return errors.New("the reply's body does not encode")
-}
-
 // forcedOp >= 0: every operation of the run is of this kind (the callers then contend for
 // the same pools and meet the same code paths at the same time).
 var forcedOp = -1
